@@ -1,13 +1,13 @@
-import sys
+import sys,re
 a=open(sys.argv[1]).read().split('\n'); b=open(sys.argv[2]).read().split('\n')
-import re
-norm=lambda l: re.sub(r'"pid":\d+','"pid":0',l)
+N=int(sys.argv[3]) if len(sys.argv)>3 else 6
+norm=lambda l: re.sub(r'^\d+ ','',re.sub(r'"pid":\d+','"pid":0',l))
 for i,(x,y) in enumerate(zip(a,b)):
     if norm(x)!=norm(y):
         print("first diff at line",i+1)
-        for l in a[max(0,i-6):i+6]: print("A",l[:230])
+        for l in a[max(0,i-N):i+N]: print("A",l[:230])
         print("-----")
-        for l in b[max(0,i-6):i+6]: print("B",l[:230])
+        for l in b[max(0,i-N):i+N]: print("B",l[:230])
         break
 else:
     print("same prefix; lens",len(a),len(b))
